@@ -750,6 +750,41 @@ Eval vm_compute in mismatches ok cases.
     chk.stream("calculate_interferometer_on_fock_space: numba kernel and generic einsum version on every connector (eager, tf.function, jax.jit) vs both Gallina models, exact dyadic data",
                sum(len(ks) for _, ks in own), sum(1 for c, _ in own if c["mode"] == "random" or c["cutoff"] >= 3),
                samples=[{k: v for k, v in interf[4].items() if k != "U"}])
+    # ---- the helper-index tuple itself vs its model (C09/HelperModel.v), exact
+    hitems = []
+    hown = []
+    for c, r in zip(interf, impl["interf"]):
+        if c["mode"] == "random" or "helper" not in r:
+            continue
+        h = r["helper"]
+        sq = [[[int(round(x * x)) for x in row] for row in lvl] for lvl in h[3]] if c["mode"] == "real" else None
+        sqf = [[int(round(x * x)) for x in lvl] for lvl in h[4]] if c["mode"] == "real" else None
+        if sq is not None and any(abs(x * x - round(x * x)) > 1e-9 for lvl in h[3] for row in lvl for x in row):
+            chk.violation("C09:calculate_interferometer_helper_indices:sqrt", "sqrt_occupation_numbers is not the square root of an integer",
+                          {"d": c["d"], "cutoff": c["cutoff"]})
+        hitems.append("(%d%%nat, %d%%nat, %s, %s, %s, %s, %s)" % (
+            c["d"], c["cutoff"], zlll(h[0]), zll(h[1]), zll(h[2]),
+            "(Some %s)" % zlll(sq) if sq is not None else "None", "(Some %s)" % zll(sqf) if sqf is not None else "None"))
+        hown.append(c)
+    body = IMPORTS + """From PV Require Import C09.HelperModel.
+Definition cases := [%s].
+Definition ok (x : nat * nat * list (list (list Z)) * list (list Z) * list (list Z) * option (list (list (list Z))) * option (list (list Z))) : bool :=
+  let '(d, c, si, fnz, fsi, sq, sqf) := x in
+  let hs := helper Z (fun z => z) d c in
+  list_eqb zll_eqb (map (fun h => map (map Z.of_nat) (l_si Z h)) hs) si &&
+  zll_eqb (map (fun h => map Z.of_nat (l_fnz Z h)) hs) fnz &&
+  zll_eqb (map (fun h => map Z.of_nat (l_fsi Z h)) hs) fsi &&
+  match sq with Some q => list_eqb zll_eqb (map (l_sq Z) hs) q | None => true end &&
+  match sqf with Some q => zll_eqb (map (l_sqf Z) hs) q | None => true end.
+Eval vm_compute in mismatches ok cases.
+""" % ";\n".join(hitems)
+    for k in parse_coq_list(coq_eval("c09_helper", body))[0]:
+        c = hown[k]
+        msg = "calculate_interferometer_helper_indices(d=%d, cutoff=%d) differs from the model" % (c["d"], c["cutoff"])
+        corr_broken.append(msg)
+        chk.violation("C09:calculate_interferometer_helper_indices:model", msg, {"d": c["d"], "cutoff": c["cutoff"]})
+    chk.stream("calculate_interferometer_helper_indices vs the Gallina model (index arrays exactly; squared sqrt weights for the true-weight cases)",
+               len(hitems), sum(1 for c in hown if c["cutoff"] >= 3), samples=[{"d": hown[-1]["d"], "cutoff": hown[-1]["cutoff"]}])
     chk.stream("same with the true sqrt weights: pairwise float comparison (differential test, no theorem)",
                real_pairs, real_pairs, kind="differential test (no theorem)")
 
@@ -795,16 +830,17 @@ Eval vm_compute in mismatches ok cases.
             else:
                 worst = max(v.values())
                 if not worst <= 1e-8:
-                    what = ("euler() does not return a decomposition: passive %.2g, active %.2g, unitarity %.2g, "
-                            "imaginary squeezing %.2g" % (v["err_passive"], v["err_active"], v["err_unitary"],
-                                                          v["imag_squeezing"]))
+                    bad = {k: x for k, x in v.items() if not x <= 1e-8}
+                    what = ("a relational specification fails (is_polar_left / is_logm / is_sqrtm / is_svd / is_takagi / "
+                            "is_euler, deviations: %s)" % ", ".join("%s %.2g" % kv for kv in sorted(bad.items())))
             if what:
                 chk.violation("C09:euler:%s:not-a-decomposition" % kind,
                               "%s on the %s connector (the factors are not unique, the relation is)" % (what, kind),
                               {"case": c, "connector": kind, "result": v,
                                "call": "piquasso._math.decompositions.euler(block([[P, A], [conj A, conj P]]), connector)"})
-    chk.stream("euler() of Squeezing2 / QuadraticPhase / random Gaussian transforms on NumPy, TensorFlow, JAX: unitarity and reconstruction "
-               "of the passive and active blocks (relational test, no theorem)", nrel, nrel,
+    chk.stream("relational specifications (C09/RelSpecs.v: is_polar_left, is_logm, is_sqrtm, is_svd, is_takagi, is_euler) evaluated on the outputs of "
+               "polar / logm / sqrtm / svd / takagi / euler of NumPy, TensorFlow, JAX for the symplectic matrices of Squeezing2 / QuadraticPhase / "
+               "random Gaussian transforms (relational test, no theorem)", nrel, nrel,
                samples=[euler[0]], kind="differential test (no theorem)")
 
     # ---------------- differential test on whole programs (the search; no theorem)
@@ -823,7 +859,7 @@ Eval vm_compute in mismatches ok cases.
         "section hypotheses of the theorems: a commutative ring (ring_theory with Leibniz equality) and division = multiplication by an arbitrary inverse function; "
         "conn_ok (the connector meets the deterministic specification on in-range, non-repeated indices) is a premise of the parametricity theorems, "
         "established for the real connectors only by the exact differential tie",
-        "the helper index tuple of calculate_interferometer_helper_indices is an input of the model (any well-shaped tuple); it is taken from the implementation in the tie",
+        "the helper index tuple is modelled in C09/HelperModel.v with the square roots as an abstract weight function; the tie compares the index arrays exactly and the squared weights",
     ]
     chk.finish(
         rule="operations: in-domain cases with data (non-trivial: everything but range); representations: cutoff >= 3 or random index structure; programs: cutoff >= 3 with >= 3 instructions",
